@@ -57,7 +57,7 @@ BASE_TEMPLATES = {
     'dot': 'q=q|v4, w=v3',
     'dotb': 'q=q|v4, w=v3',
     'angle': 'q1=q, q2=q',
-    'qprint': 'q=q|v4, file=stream',
+    'qprint': 'q=q|v4, file=stream|stream|none, ?fmt=fmt',
     'rot2': 'theta=ang, ?unit=unit',
     'trot2': 'theta=ang, ?unit=unit, ?t=v2',
     'transl2': 'x=sc, y=sc / x=v2|T2',
@@ -66,7 +66,7 @@ BASE_TEMPLATES = {
     'trlog2': 'T=T2|R2, ?check=bool, ?twist=bool',
     'trexp2': 'S=so2|se2|v3|sc, ?theta=ang',
     'trinterp2': 'start=T2, end=T2, s=s01 / start=R2, end=R2, s=s01 / start=none, end=T2|R2, s=s01',
-    'trprint2': 'T=T2|R2, ?label=str, ?unit=unit, file=stream',
+    'trprint2': 'T=T2|R2, ?label=str, ?unit=unit, ?fmt=fmt, file=stream|stream|none',
     'xyt2tr': 'xyt=v3, ?unit=unit',
     'tr2xyt': 'T=T2, ?unit=unit',
     'trinv2': 'T=T2',
@@ -98,7 +98,7 @@ BASE_TEMPLATES = {
     'trinv': 'T=T3',
     'tr2delta': 'T0=T3, ?T1=T3',
     'tr2jac': 'T=T3, ?samebody=bool',
-    'trprint': 'T=T3|R3, ?orient=orient, ?unit=unit, ?label=str, file=stream',
+    'trprint': 'T=T3|R3, ?orient=orient, ?unit=unit, ?label=str, ?fmt=fmt, file=stream|stream|none',
     't2r': 'T=T3|T2, ?check=bool',
     'r2t': 'R=R3|R2, ?check=bool',
     'tr2rt': 'T=T3|T2, ?check=bool',
@@ -209,7 +209,7 @@ MEMBER_TEMPLATES = {
     'Twist2.isvalid': 'v=v3|se2|m33, ?check=bool', 'Twist3.isvalid': 'v=v6|se3|T3, ?check=bool',
     'Plucker.isvalid': 'x=v6|v3, ?check=bool',
     'isvalid': 'x=v6|m66, check=bool',
-    'printline': 'file=stream',
+    'printline': 'file=stream|stream|none, ?unit=unit, ?fmt=fmt, ?label=str, ?orient=orient',
     'count': 'item=SAME1', 'index': 'item=SAME1', '__contains__': 'item=SAME1',
     '__getitem__': 'i=idx|slice',
     # documented list mutators
